@@ -136,7 +136,7 @@ Proof.
     + destruct (get_named LFunc (r_func (s_regs st1)) st1 n); [exact L | apply inv_call_handler; exact L].
   - pose proof (LIST es st H) as L.
     match goal with |- context [(fix go (l : list ast) (st : state) {struct l} := _) es st] =>
-      destruct ((fix go (l : list ast) (st : state) {struct l} := _) es st) as [[e1|vs] st1] end; exact L.
+      destruct ((fix go (l : list ast) (st : state) {struct l} := _) es st) as [[e1|vs] st1] end; [exact L | destruct (vbounded (VList vs)); exact L].
   - assert (MAP: forall l st, P st ->
        P (snd ((fix go (l : list (ast * ast)) (st : state) {struct l} : (eres + list (value * value)) * state :=
            match l with
@@ -164,7 +164,7 @@ Proof.
         destruct ((fix go (l : list (ast * ast)) (st : state) {struct l} := _) r st2) as [[e1|vs] st3] end; exact IHl. }
     pose proof (MAP kvs st H) as L.
     match goal with |- context [(fix go (l : list (ast * ast)) (st : state) {struct l} := _) kvs st] =>
-      destruct ((fix go (l : list (ast * ast)) (st : state) {struct l} := _) kvs st) as [[e1|vs] st1] end; exact L.
+      destruct ((fix go (l : list (ast * ast)) (st : state) {struct l} := _) kvs st) as [[e1|vs] st1] end; [exact L | destruct (vbounded (VMap vs)); exact L].
   - assert (ST: forall l last st, P st ->
        P (snd ((fix go (l : list ast) (last : value) (st : state) {struct l} : eres * state :=
          match l with
